@@ -21,7 +21,11 @@ Methods == {"GET", "POST"}
 HostParams == {"absent", "one", "twice"}
 OptParams == {"absent", "zero", "garbage", "opt"}
 TsParams == {"absent", "zero", "created", "other"}
-ScriptCases == [method : Methods, hostname : HostParams, option : OptParams, ts : TsParams, ims : BOOLEAN]
+\* ae: the Accept-Encoding header of the client.  The answer has to be readable the way its own Content-Encoding header
+\* says, whatever the client accepts and whether or not the server is configured to compress the script (the harness
+\* runs every case against both configurations)
+AcceptEncodings == {"none", "gzip", "identity"}
+ScriptCases == [method : Methods, hostname : HostParams, option : OptParams, ts : TsParams, ims : BOOLEAN, ae : AcceptEncodings]
 
 Emit == /\ phase = "idle" =>
              \A c \in ScriptCases :
